@@ -9,6 +9,11 @@ CLAIMS = {
   text="Proved in Lean for all parameters, start states, input/feedback sequences and noise streams: with zero gains every step of the model run obeys the documented internal/external law, sparse storage equals dense, the run is independent of the noise draws (C01_run_law_internal/_external, C01_sparse_eq_dense, C01_zero_gain_ignores_noise). The tie to nodes/reservoirs/base.py is a correspondence check: the same definitions run on exact rationals (bit-exact comparison, piecewise-linear activations) and on Float (tanh/sigmoid, initialiser-built weights, 1e-9) against Reservoir.run/call on generated configurations, with a direct numpy oracle of the step law for the failing-input search.",
   note="Trusted: Lean kernel + 3 standard axioms; the hand-written model; the harness. Not verified: float64 rounding, np.tanh, BLAS, scipy sparse kernels (observed through the correspondence only).",
   design="§6 C01"),
+ "C17": dict(
+  technique="Lean 4 proof (list induction: store invariant, strided selection, multiset-coefficient count, deque law) + exact differential correspondence of NVAR/Delay/Concat with the executable model",
+  text="Proved in Lean for every store length, stride, delay, order and input sequence: after u0..ut the NVAR store row j is u(t-j) (zero before the start), the strided selection is u(t), u(t-s), ..., u(t-(k-1)s), the output is that linear part followed by one monomial per combination-with-replacement in itertools order (count = C(kd+n-1,n), every combination sorted in pool order); Delay emits buf reversed then the inputs shifted by d, d=0 is the identity; Concat lays its parts side by side in the order given. Tied to the code by exact (rational equality) comparison of NVAR.run/call, Delay.run/call, Concat.call with the model driver on the full small configuration grid, plus a direct Python oracle of the documented functions.",
+  note="Trusted: Lean kernel + standard axioms; the hand-written model lean/RpyModel/Windows.lean; the harness. Not verified: numpy roll/ravel/prod internals (observed only through the correspondence).",
+  design="§6 C17"),
 }
 
 NOT_YET = "check not built yet in this revision (planned, see DESIGN.md §11)"
